@@ -135,6 +135,19 @@ func (c *Ctx) Check(cond bool, rule, construct, pos, okDetail, failDetail string
 }
 
 // Min declares a vacuity guard: rule must have matched at least want instances.
+// Check3 records a three-valued obligation: discharged on Yes, violation on No, undecided on Unknown.
+func (c *Ctx) Check3(t Tri, rule, construct, pos, okDetail, failDetail string) Tri {
+	switch t {
+	case Yes:
+		c.Ok(rule, construct, pos, okDetail)
+	case No:
+		c.Fail(rule, construct, pos, failDetail)
+	default:
+		c.Undecided(rule, construct, "not readable by the rule: "+failDetail)
+	}
+	return t
+}
+
 func (c *Ctx) Min(rule string, got, want int) {
 	c.minimums = append(c.minimums, minimum{rule, want, got})
 }
